@@ -55,8 +55,9 @@ def run(chk, repo, tier):
     operands_untouched(chk, repo, 'C11-o', ['zernike.zernike', 'zernike.zernike_compose', 'zernike.zernike_basis', 'zernike.zernike_fit', 'zernike.zernike_remove', 'zernike.zernike_coordinates', 'zernike.R'], allow=[])
     chk.clause('C11-a', 'zero outside the mask: the mask is a factor of every returned mode', 1)
     chk.clause('C11-b', 'the mask is coerced to bool before any other use', 2)
-    from .c12 import binding_rule, basis_dtype_rule
+    from .c12 import binding_rule, basis_dtype_rule, basis_order_rule
     basis_dtype_rule(chk, repo, 'C11-b')
+    basis_order_rule(chk, repo, 'C11-b')
     binding_rule(chk, repo, 'C11-c')
     chk.clause('C11-c', 'normalised = un-normalised x sqrt(n+1) (m = 0) or sqrt(2)*sqrt(n+1) (m != 0); cosine for m > 0, sine for m < 0', 3)
     chk.clause('C11-d', 'default polar origin = mask centroid for either parity (shift = centroid - floor(n/2))', 2)
